@@ -27,12 +27,25 @@ BAD = ['A+B', '2*A*B', 'A-B', '(A', 'A*B*C', 'max(A,B)']
 
 def generate(seed, tier):
     S = core.Streams(seed)
-    if S['swarm'].random() < 0.008:
+    if S['swarm'].random() < 0.012:
         # model level: flows recorded on sectors by the framework itself and by Model.RegisterCashFlow (source and
         # destination income flags differ), observed on the solved INC series
         from .. import econgen
         fam = S['swarm'].choice(['multi_currency', 'multi_currency', 'closed', 'capitalists', 'closed_fin', 'pc'])
         ops, info = econgen.gen_program(seed, family=fam, tight=S['swarm'].random() < 0.5, T=S['knobs'].randint(1, 3))
+        if S['swarm'].random() < 0.5:
+            # flows whose amounts are products with another sector's variable, named while the model is still being
+            # built (a temporary name at that time): booked with AddCashFlow on payer and payee
+            e = info['economies'][0]
+            main_i = [i for i, o in enumerate(ops) if o['op'] == 'main'][0]
+            first = max(i for i, o in enumerate(ops) if o.get('id') in (e['hh'], e['gov'])) + 1
+            at = S['swarm'].randint(first, main_i)
+            coef = S['swarm'].choice(['0.01', '0.002', '2'])
+            extra = [{'op': 'GetVariableName', 'sector': e['gov'], 'var': 'LAG_F', 'save_as': 'c06_n'},
+                     {'op': 'AddCashFlow', 'sector': e['hh'], 'term': '-%s*{name:c06_n}' % coef, 'eqn': None},
+                     {'op': 'AddCashFlow', 'sector': e['gov'], 'term': '+%s*LAG_F' % coef, 'eqn': None,
+                      'is_income': S['swarm'].random() < 0.5}]
+            ops = ops[0:at] + extra + ops[at:]
         return {'kind': 'ECON', 'family': info['family'], 'ops': ops}
     rng = S['ops']
     ops = [{'op': 'model', 'id': 'm0'}, {'op': 'country', 'id': 'c0', 'model': 'm0', 'code': 'CA'}]
@@ -123,6 +136,20 @@ def execute(case):
         viol, stats, sess = econprops.numeric_check(case, ('income',), ID)
         stats['probes'] = dict(stats.get('probes', {}), model_level_income_ledger=1)
         solved = stats.get('main_outcome', {}).get('main:ok', 0) > 0
+        # whatever main() made of the flows: every sector's F and INC must be evaluable on the model's variables
+        for mh, txt in sorted(sess.final_text.items()):
+            if viol or not txt:
+                continue
+            p = econ.parse_final(txt)
+            defined = set(l for l, _ in p['eqs']) | set(l for l, _ in p['lags']) | set(l for l, _ in p['exo']) | {'k', 't'}
+            for lhs, rhs in p['eqs']:
+                if lhs.endswith('__F') or lhs.endswith('__INC'):
+                    bad = [n for n in econ.names_in_rhs(rhs) if n not in defined and n not in V.FUNCS]
+                    if bad:
+                        viol.append(core.violation(ID, 'ledger-refers-to-undefined-name', 'ledger-refers-to-undefined-name',
+                                                   equation=lhs, rhs=rhs[0:160], name=bad[0]))
+                        break
+            stats['probes']['final_ledgers_evaluable_checked'] = 1
         return {'violations': viol, 'stats': stats, 'sig': 'econ:' + econprops.program_sig(case, sess),
                 'digest': core.digest([(i, n, o) for i, n, o in sess.log]), 'nontrivial': solved}
     core.import_sut()
